@@ -71,13 +71,36 @@ func verifAssert(label string, c bool) {
 
 //@ func (*ImmuStore).precommit
 //@   ensures nonnil: r1 == nil ==> r0 != nil
+// C07 (owner con-c07, see zz_verif_contracts_c07.go): replica path. `currPrecomittedTxID`, `currPrecommittedAlh` (read under
+// s.mutex through precommittedAlh()) and `blRoot` (the replica's own tree root at hdr.BlTxID, zero when BlTxID == 0) are
+// locals of the function: postconditions about "the value read under the lock" name them (documented exception).
+//@   ensures c07_id: r1 == nil && hdr != nil ==> hdr.ID == currPrecomittedTxID + 1
+//@   ensures c07_prev: r1 == nil && hdr != nil ==> hdr.PrevAlh == currPrecommittedAlh
+//@   ensures c07_blroot: r1 == nil && hdr != nil ==> hdr.BlRoot == blRoot
+//@   ensures c07_blroot0: r1 == nil && hdr != nil && hdr.BlTxID == 0 ==> be64(hdr.BlRoot[0:]) == 0 && be64(hdr.BlRoot[8:]) == 0 && be64(hdr.BlRoot[16:]) == 0 && be64(hdr.BlRoot[24:]) == 0
+//@   ensures c07_nent: r1 == nil && hdr != nil ==> hdr.NEntries == len(otx.entries)
+//@   ensures c07_eh: r1 == nil && hdr != nil && !skipIntegrityCheck ==> r0.Eh == hdr.Eh
+//@   ensures c07_ret_id: r1 == nil && hdr != nil ==> r0.ID == hdr.ID
+//@   ensures c07_ret_ts: r1 == nil && hdr != nil ==> r0.Ts == hdr.Ts
+//@   ensures c07_ret_ver: r1 == nil && hdr != nil ==> r0.Version == hdr.Version
+//@   ensures c07_ret_bl: r1 == nil && hdr != nil ==> r0.BlTxID == hdr.BlTxID
+//@   ensures c07_ret_blroot: r1 == nil && hdr != nil ==> r0.BlRoot == hdr.BlRoot
+//@   ensures c07_ret_prev: r1 == nil && hdr != nil ==> r0.PrevAlh == hdr.PrevAlh
+//@   ensures c07_ret_nent: r1 == nil && hdr != nil ==> r0.NEntries == hdr.NEntries
+//@   ensures c07_rej_cid: r1 != nil ==> s.committedTxID == old(s.committedTxID)
+//@   ensures c07_rej_calh: r1 != nil ==> s.committedAlh == old(s.committedAlh)
+//@   ensures c07_rej_pid: r1 != nil ==> s.inmemPrecommittedTxID == old(s.inmemPrecommittedTxID)
+//@   ensures c07_rej_palh: r1 != nil ==> s.inmemPrecommittedAlh == old(s.inmemPrecommittedAlh)
+//@   ensures c07_rej_sz: r1 != nil ==> s.precommittedTxLogSize == old(s.precommittedTxLogSize)
 
 //@ func (*OngoingTx).set
 
 // con-c04 (C04, additive): nil only if every indexer wait that was issued returned nil (ghost counters verif_c04 in
 // zz_verif_contracts_c04.go; one wait per element of the indexer map: the map iteration itself is not modelled);
 // a full waitee table is reported as an error before anything is waited for.
+// (c07) waits on the indexers' watcher hubs; writes only the waitees counter and hub state, which no verified caller reads.
 //@ func (*ImmuStore).WaitForIndexingUpto
+//@   assigns internal
 //@   ensures c04_all_ok: r0 == nil ==> verif_c04_waits - old(verif_c04_waits) == verif_c04_waitsOK - old(verif_c04_waitsOK)
 //@   ensures c04_limit: old(s.waiteesCount) == old(s.maxWaitees) ==> r0 == watchers.ErrMaxWaitessLimitExceeded && verif_c04_waits == old(verif_c04_waits)
 //@   loop 1 invariant c04_all_ok: verif_c04_waits - old(verif_c04_waits) == verif_c04_waitsOK - old(verif_c04_waitsOK)
